@@ -86,6 +86,17 @@ MUTATIONS = {
         ('webservice', 'tonic-web/src/call.rs', r'Some\(GRPC_WEB_TEXT_PROTO\) \| Some\(GRPC_WEB_TEXT\) => Encoding::Base64', 'Some(GRPC_WEB_TEXT_PROTO) | Some(GRPC_WEB) => Encoding::Base64', 'binary content-type decoded as base64'),
         ('webservice', 'tonic-web/src/service.rs', r'future: self\.inner\.call\(coerce_request\(req, encoding\)\),\s*accept,', 'future: self.inner.call(coerce_request(req, encoding)),\n                        accept: encoding,', 'response flavour taken from the request content-type instead of accept'),
     ],
+    'C19': [
+        ('reflection', 'tonic-reflection/src/server/mod.rs', r'self\.process_message\(fd\.clone\(\), &message_name, nested\)\?;', 'self.process_message(fd.clone(), prefix, nested)?;', 'nested messages indexed under the outer prefix'),
+        ('reflection', 'tonic-reflection/src/server/mod.rs', r'extract_name\(&enum_name, "enum value", value\.name\.as_ref\(\)\)\?', 'extract_name(prefix, "enum value", value.name.as_ref())?', 'enum values indexed without the enum name'),
+        ('reflection', 'tonic-reflection/src/server/mod.rs', r'extract_name\(&service_name, "method", method\.name\.as_ref\(\)\)\?', 'extract_name(prefix, "method", method.name.as_ref())?', 'methods indexed without the service name'),
+        ('reflection', 'tonic-reflection/src/server/mod.rs', r'if state\.files\.contains_key\(&name\) \{\s*continue;\s*\}', 'if false {\n                    continue;\n                }', 'a duplicate file registration replaces the first'),
+        ('reflection', 'tonic-reflection/src/server/mod.rs', r'match self\.symbols\.get\(symbol\) \{', 'match self.files.get(symbol) {', 'symbol lookup searches the file table'),
+        ('reflection', 'tonic-reflection/src/server/mod.rs', r'Ok\(format!\("\{\}\.\{\}", prefix, name\)\)', 'Ok(format!("{}.{}", name, prefix))', 'qualified name built backwards'),
+        ('reflection', 'tonic-reflection/src/server/mod.rs', r'if use_all_service_names \{\s*self\.service_names\.push', 'if !use_all_service_names {\n                self.service_names.push', 'service list filled only when explicit names were chosen'),
+        ('reflection', 'tonic-reflection/src/server/mod.rs', r'self\.symbols\.insert\(oneof_name, fd\.clone\(\)\);', 'let _ = oneof_name;', 'oneofs not indexed'),
+        ('reflection', 'tonic-reflection/src/server/mod.rs', r'for en in &msg\.enum_type \{', 'for en in msg.enum_type.iter().skip(1) {', 'first nested enum skipped (unsupported construct: must not alarm)'),
+    ],
     'C17': [
         ('webclient', 'tonic-web/src/call.rs', r'len \+= msg_len as usize \+ 4 \+ 1;', 'len += msg_len as usize + 4;', 'frame walk skips one byte too few'),
     ],
